@@ -416,6 +416,39 @@ def lck_reset(ctx: Ctx) -> RuleResult:
     return r
 
 
+PROCESS_GLOBALS = ("warnings.catch_warnings", "warnings.simplefilter", "warnings.filterwarnings", "warnings.resetwarnings",
+                   "os.chdir", "os.putenv", "os.umask", "sys.setrecursionlimit", "sys.settrace", "sys.setprofile", "threading.settrace",
+                   "contextlib.redirect_stdout", "contextlib.redirect_stderr", "signal.signal", "locale.setlocale", "random.seed",
+                   "gc.disable", "gc.enable", "logging.disable", "socket.setdefaulttimeout")
+
+
+def lck_globals(ctx: Ctx) -> RuleResult:
+    """The library does not change process-wide interpreter state: what one thread sets while it describes or runs a DAG is what
+    every other thread sees (warnings filters, working directory, trace functions, ...)."""
+    r = RuleResult("LCK-GLOBALS")
+    n = 0
+    for f in pkg_funcs(ctx):
+        for c, q in ctx.calls_in(f):
+            n += 1
+            d = dotted(c.func) or ""
+            hit = next((g for g in PROCESS_GLOBALS if d == g or d.endswith("." + g) or (q or "") == "ext:" + g), None)
+            if hit is None and isinstance(c.func, ast.Name) and q and q.startswith("ext:") and q[4:] in PROCESS_GLOBALS:
+                hit = q[4:]
+            if hit is not None:
+                r.ob(False, {"in": f.short, "changes process-wide state": hit})
+                r.violate(f"{f.short}: {hit} changes state shared by every thread of the process", f.loc(c),
+                          "while one thread is inside this code every other thread is affected: e.g. with the warnings filters replaced "
+                          "during a description, the RuntimeWarning another thread must emit is swallowed", norm_src(c)[:100])
+        for n_ in iter_own_nodes(f.node):
+            if isinstance(n_, (ast.Assign, ast.AugAssign)):
+                for t in (n_.targets if isinstance(n_, ast.Assign) else [n_.target]):
+                    if isinstance(t, ast.Subscript) and dotted(t.value) == "os.environ":
+                        r.violate(f"{f.short}: os.environ is modified", f.loc(n_), "process-wide state", norm_src(n_)[:80])
+    r.ob(True, {"calls inspected": n})
+    r.require(n >= 100, f"only {n} calls inspected")
+    return r
+
+
 # ---------------------------------------------------------------------------------------------- LCK-PAIR
 def lck_pair(ctx: Ctx) -> RuleResult:
     """The prefix pushed by the splice is popped on every normal exit after the push."""
@@ -476,4 +509,4 @@ def lck_pair(ctx: Ctx) -> RuleResult:
     return r
 
 
-RULES = {"LCK-SET": lck_set, "LCK-PRED": lck_pred, "LCK-RESET": lck_reset, "LCK-PAIR": lck_pair}
+RULES = {"LCK-GLOBALS": lck_globals, "LCK-SET": lck_set, "LCK-PRED": lck_pred, "LCK-RESET": lck_reset, "LCK-PAIR": lck_pair}
